@@ -154,7 +154,7 @@ randget_lc (gmp_randstate_t rstate, mp_ptr rp, mpir_ui nbits)
 
   TMP_MARK;
 
-  chunk_nbits = p->_mp_m2exp / 2;
+  chunk_nbits = (p->_mp_m2exp + 1) / 2;
   tn = BITS_TO_LIMBS (chunk_nbits);
 
   tp = (mp_ptr) TMP_ALLOC (tn * BYTES_PER_MP_LIMB);
